@@ -185,7 +185,7 @@ class Ewald:
         ei_cij = ewald.real_cij(
             ei_dist, self.lattice_displacements, self.alpha
         )  # (nconf, nelec, natoms)
-        ei_real = gpu.cp.einsum("k,ijk->i", -self.atom_charges, ei_cij)  # (nconf,)
+        ei_real = gpu.cp.einsum("j,ijk->i", -self.atom_charges, ei_cij)  # (nconf,)
 
         # reciprocal term
         g_dot_r = gpu.cp.einsum(
